@@ -158,6 +158,10 @@ def gen_media(ch, spec):
     cfg["stall_rate"] = ch.choice("cfg", [0.0, 0.0, 0.002])
     cfg["stall_max"] = ch.choice("cfg", [0.02, 0.3])
     cfg["turn"] = fakes.gen_turn(ch, ["S", "R"])
+    if ch.chance("cfg", 0.12):
+        # a few feedback packets arrive seconds late: what they ask for may have left the sender's history
+        cfg["hold_feedback"] = {"cls": "srtcp", "from": ch.randint("cfg", 2, 40, 5), "count": ch.choice("cfg", [1, 3, 8]),
+                                "dur": ch.choice("cfg", [1.5, 3.0, 6.0])}
     base = ch.choice("cfg", [0.002, 0.02, 0.08])
     if cfg["mode"] == "live":
         # faults on first transmissions only; feedback and retransmissions get through
@@ -237,6 +241,8 @@ class MediaWorld(MediaBase):
         self.rebind(txmod, "random32", lambda: r32.pop(0) if r32 else real_r32())
         # network: classes on the media path
         fab = self.fabric
+        if cfg.get("hold_feedback"):
+            fab.holds[("R", "S")] = cfg["hold_feedback"]
         self.hit_seqs = {(cfg["seq0"] + cfg.get("hit_at", 0) + o) & 0xFFFF for o in cfg.get("hits", [])}
         fab.class_profiles[("S", "R")] = {"first": Profile.from_json(cfg["s2r_first"]),
                                           "hit": Profile(base=cfg["s2r_first"]["base"], drop=1.0),
@@ -511,7 +517,8 @@ class MediaWorld(MediaBase):
         if len(self.sent) < self.n_real:
             self.violation("C11", "sender-stopped-sending", "%d of %d frames sent" % (len(self.sent), self.n_real))
             return
-        if self.cfg["mode"] != "live":
+        if self.cfg["mode"] != "live" or self.cfg.get("hold_feedback"):
+            # (feedback that is kept back for seconds asks for packets that have left the sender's history)
             return
         if self.discards:
             self.exempt["live_run_with_discard"] += 1
